@@ -758,7 +758,7 @@ class C14(TextPlan):
     extra_env = {'GORACE': 'halt_on_error=1 exitcode=66'}
     timeout_ms = 60000
     tie_name = 'concurrent jobs under the race detector: every result of every goroutine vs the pure extracted model of that job'
-    rule = ('jobs = assemble a rendered program (incl. FOR counts over EQU chains, whose resolution walks Go maps) or a text with an unterminated / empty FOR block / build a simulator, add warrior data, scribble over the caller\'s copy afterwards, spawn, run; '
+    rule = ('jobs = assemble a rendered program (incl. FOR counts over EQU chains, whose resolution walks Go maps) or a text with an unterminated / empty FOR block / build a simulator, add warrior data (either the job\'s own, scribbled over afterwards, or one set shared by all goroutines, which must be unchanged at the end), spawn, run; '
             'each job repeated 12-24 times on 1..32 goroutines at once in a binary built with -race (halt on the first report); all repetitions must give one and the same result and it must equal the '
             'pure model\'s; non-trivial = the job succeeded (assembled / battle ran)')
     base_gens = [('prog', 150, progargs(2, 2, EQUS | FORS, 4)), ('prog', 60, progargs(2, 3, EQUS | SIGNS | ASSERTS, 4)), ('prog', 40, progargs(0, 2, EQUS, 4))]
@@ -782,6 +782,10 @@ class C14(TextPlan):
         for b in E.gen_cases('battle', seed + 5, 120 * k, [2 | 4 | 8 | 128, 3, 1, 60]):
             threads = rng.choice([1, 4, 16, 32])
             lines.append([14, threads, 8] + [int(x) for x in b.split()])
+        # the same without scribbling: the goroutines are handed one and the same warrior data (record 95: it is unchanged afterwards)
+        for b in E.gen_cases('battle', seed + 6, 60 * k, [2 | 4 | 8, 3, 1, 60]):
+            threads = rng.choice([4, 16, 32])
+            lines.append([14, threads, 8] + [int(x) for x in b.split()])
         return [' '.join(str(x) for x in l) for l in lines]
 
     def extra_monitor(self, ints, impl):
@@ -794,6 +798,9 @@ class C14(TextPlan):
         r = find(impl, 94)
         if r is not None and r[1] != 1:
             return 'a-concurrent-or-aliased-run-differs-from-the-same-job-run-alone'
+        r = find(impl, 95)
+        if r is not None and r[1] != 1:
+            return 'warrior-data-shared-by-the-jobs-was-changed-by-them'
         return None
 
     def input_in_fragment(self, ints):
